@@ -117,6 +117,8 @@ static bool gen_c08(uint64_t seed, const std::string &tier, uint64_t i, Plan &p)
   if (mode == 0) p.ops.push(send_op(all)); else if (mode == 1) p.ops.push(send_op(all, (int)r.range(1, 30)));
   else { size_t off = 0; int rep = 1; while (off < all.size()) { size_t e = all.find('\n', off); if (e == std::string::npos) e = all.size() - 1; p.ops.push(send_op(all.substr(off, e - off + 1))); off = e + 1; if (r.chance(0.7)) p.ops.push(wait_op(++rep)); } }
   if (r.chance(0.05)) { Fault f; f.actor = "qmail-smtpd"; f.call = r.pick(std::vector<CallId>{C_OPEN, C_READ}); f.path = "/control/"; f.nth = (int)r.range(1, 10); f.kind = "error"; f.err = r.pick(std::vector<int>{EIO, ENOMEM, EACCES, ENFILE}); p.faults.push_back(f); }   // a control file (or morercpthosts.cdb) that cannot be read
+  // a policy file that exists but cannot be opened - for whatever reason, not only the "try again later" kind - is not an absent one
+  if (p.faults.empty() && r.chance(0.04)) { Fault f; f.actor = "qmail-smtpd"; f.call = C_OPEN; f.path = r.pick(std::vector<std::string>{"/control/rcpthosts", "/control/rcpthosts", "/control/badmailfrom", "/control/morercpthosts"}); f.nth = 1; f.kind = "error"; f.err = r.pick(std::vector<int>{EACCES, EPERM, ELOOP, ENOTDIR, ENAMETOOLONG, EIO, ENOMEM, EMFILE, ENXIO, EISDIR, EOVERFLOW, ESTALE}); p.faults.push_back(f); }
   p.knobs.set("ctl_style", (long long)r.pick(std::vector<int64_t>{0, 0, 1, 1, 2}));   // the same control files spelled differently (no final newline; comments, blank lines, trailing blanks)
   add_short_io(r, p, "qmail-smtpd", 0.15, false);
   p.label = "commands=" + std::to_string(n) + " rcpthosts=" + std::to_string(rc) + " relay=" + std::to_string(rl);
